@@ -97,7 +97,69 @@ def _attach_lan(t: Topo, rng: Rng, r: Optional[int], net, p: int, nhosts: int, v
     return lan
 
 
+def gen_dmz_cross(rng: Rng) -> dict:
+    """Misconfiguration family "two IP subnets on one layer-2 segment": two firewalls (or a firewall and a router) are cross-connected
+    so that each one's DMZ port shares a segment with a port of the other that uses ANOTHER subnet, and each routes the other's
+    subnet through a next hop on its own side.  ARP requests for those next hops are layer-2 broadcasts that arrive on a DMZ port
+    without being for the firewall; before repair F-C08-r3-1 each one started a look-up, i.e. the next ARP request, without end."""
+    t = Topo()
+    k2 = rng.choice(["firewall", "firewall", "router"])
+    f1, f2 = t.router("firewall"), t.router(k2)
+    sa, sb = t.switch(5), t.switch(4)
+    a, b, c, d = rng.shuffle([1, 2, 3, 4, 5, 6])[:4]
+    p = rng.choice([24, 24, 25, 28])
+    net = lambda x: (10, 0, x, 0)
+    t.nodes[f1]["ports"][1] = {"ip": _ip(net(c), 1), "mask": _mask(p)}   # internal, on segment B
+    t.nodes[f1]["ports"][2] = {"ip": _ip(net(a), 1), "mask": _mask(p)}   # DMZ, on segment A
+    t.nodes[f2]["ports"][1] = {"ip": _ip(net(b), 1), "mask": _mask(p)}   # on segment A, another subnet
+    t.nodes[f2]["ports"][2] = {"ip": _ip(net(d), 1), "mask": _mask(p)}   # DMZ (firewall) on segment B, another subnet
+    nh1, nh2 = _ip(net(c), 9), _ip(net(b), 9)
+    if rng.chance(1, 3):
+        nh2 = _ip(net(b), 1)  # a present next hop: the other device's own address on the segment
+    t.nodes[f1]["routes"].append({"addr": _ip(net(b), 0), "mask": _mask(p), "nh": nh1, "metric": 0})
+    t.nodes[f2]["routes"].append({"addr": _ip(net(c), 0), "mask": _mask(p), "nh": nh2, "metric": 0})
+    if rng.chance(1, 2):
+        t.nodes[f1]["default"] = nh1
+    if rng.chance(1, 2):
+        t.nodes[f2]["default"] = nh2
+    t.link(f1, 2, sa, t.swport(sa))
+    t.link(f2, 1, sa, t.swport(sa))
+    t.link(f1, 1, sb, t.swport(sb))
+    t.link(f2, 2, sb, t.swport(sb))
+    h1 = t.host(_ip(net(a), 5), p, _ip(net(a), 1))
+    t.link(h1, 0, sa, t.swport(sa))
+    h2 = t.host(_ip(net(d), 5), p, _ip(net(d), 1))
+    t.link(h2, 0, sb, t.swport(sb))
+    h3 = t.host(_ip(net(b), 6), p, _ip(net(b), 1))  # a host of the OTHER subnet on segment A
+    t.link(h3, 0, sa, t.swport(sa))
+    every = [[l, c2] for l in range(6) for c2 in range(3)]
+    mode = rng.choice(["open", "open", "random", "no-arp-dmz-out"])
+    for n in t.nodes:
+        if n["kind"] == "firewall":
+            n["permit"] = every if mode == "open" else ([x for x in every if rng.chance(5, 6)] if mode == "random" else [x for x in every if x != [5, 0]])
+    hosts = [h1, h2, h3]
+    targets = [nh1, nh2, _ip(net(b), 7), _ip(net(c), 7), "8.8.8.8"] + [t.nodes[h]["ip"] for h in hosts] + \
+              [prt["ip"] for r in (f1, f2) for prt in t.nodes[r]["ports"] if prt]
+    ops = [{"op": "ping", "src": h1, "dst": nh2, "count": 1}]
+    for _ in range(rng.range(6, 12)):
+        ops.append({"op": "ping", "src": rng.choice(hosts), "dst": rng.choice(targets), "count": rng.choice([1, 1, 2])})
+        if rng.chance(1, 6):
+            ops.append({"op": "arpclear", "node": rng.choice([f1, f2] + hosts)})
+    srv = rng.choice(hosts)
+    t.nodes[srv]["flag"] = True
+    for r in (f1, f2):
+        t.nodes[r]["flag"] = rng.chance(2, 3)
+    ops += [{"op": "service", "src": h, "dst": t.nodes[srv]["ip"]} for h in hosts if h != srv]
+    for n in t.nodes:
+        n.pop("used", None)
+    return {"nodes": t.nodes, "links": t.links, "air": [], "ops": ops, "ping_permit": False, "all_permit": False, "consistent": False,
+            "icmp_ident_zero": False,
+            "notes": {"routers": 2, "kinds": f"firewall+{k2}", "routing": "cross", "fw": mode, "dmz_cross": True, "permit": "some"}}
+
+
 def gen_case(rng: Rng, max_routers: int = 3) -> dict:
+    if rng.chance(1, 14):
+        return gen_dmz_cross(rng)
     t = Topo()
     nr = rng.choice([0, 1, 1, 2, 2, 3][: 2 + 2 * max_routers]) if max_routers < 3 else rng.choice([0, 1, 1, 2, 2, 2, 3, 3])
     lan_prefixes = [24, 24, 25, 28, 16, 26]
@@ -249,6 +311,21 @@ def gen_case(rng: Rng, max_routers: int = 3) -> dict:
         t.nodes[lan["router"]]["routes"].append({"addr": "172.31.0.0", "mask": "255.255.0.0", "nh": t.nodes[h]["ip"], "metric": 0})
         via_host = [{"op": "ping", "src": x, "dst": "172.31.0.5", "count": 1} for x in hosts[:3]]
         notes["via_host"] = True
+    if nr >= 2 and hosts and rng.chance(1, 6):
+        # a route whose next hop is NOT directly connected (an address in a remote LAN, itself reachable through another route):
+        # look-ups for it go through the route table a second time (RouterARP), the router's own replies through
+        # RouterSessionManager.resolve_outbound_network_interface
+        far = [l for l in t.lans if l["router"] is not None and l["hosts"]]
+        if len(far) >= 2:
+            l1, l2 = rng.shuffle(far)[:2]
+            if l1["router"] != l2["router"]:
+                tgt = t.nodes[l2["hosts"][0]]["ip"] if rng.chance(1, 2) else l2["gw"]
+                t.nodes[l1["router"]]["routes"].append({"addr": "172.29.0.0", "mask": "255.255.0.0", "nh": tgt, "metric": 0})
+                via_host += [{"op": "ping", "src": x, "dst": "172.29.0.5", "count": 1} for x in l1["hosts"][:2] + l2["hosts"][:1]]
+                via_host += [{"op": "ping", "src": l2["hosts"][0], "dst": l1["gw"], "count": 1}]
+                notes["recursive_nh"] = True
+                if tgt != l2["gw"]:
+                    notes["via_host"] = True
     if len(hosts) >= 2 and rng.chance(1, 8):
         # misconfiguration: a host whose default gateway is another host on its LAN
         lan = rng.choice([l for l in t.lans if len(l["hosts"]) >= 2] or [None])
@@ -342,6 +419,11 @@ def gen_case(rng: Rng, max_routers: int = 3) -> dict:
             if pairs:
                 for a, b in rng.shuffle(pairs)[:2]:
                     extra.append({"op": "ping", "src": a, "dst": t.nodes[b]["ip"], "count": 1})
+            if hosts:
+                # the router itself must answer (ARP reply, echo reply) while one of its ports is down: its own
+                # resolve_outbound_network_interface may have to fall back to a route whose next hop lies behind the dead port
+                for prt in rng.shuffle([x for x in t.nodes[r]["ports"] if x])[:3]:
+                    extra.append({"op": "ping", "src": rng.choice(hosts), "dst": prt["ip"], "count": 1})
             extra.append({"op": "enable", "node": r, "ifc": i})
         elif k == 2:
             n = rng.below(len(t.nodes))
@@ -432,7 +514,12 @@ def model_lines(case: dict) -> Tuple[List[str], List[int]]:
             lines.append(f"setflag {n}")
     lines.append("goodstate")
     op_pos = []
+    probes = 0
     for op in case["ops"]:
+        if op["op"] == "ping" and probes < 2:
+            # nesting budget this ping needs (state untouched); read by the check as evidence for / instance of the fuel bound theorem
+            lines.append(f"needfuel {op['src']} {op['dst']} {op['count']}")
+            probes += 1
         op_pos.append(len(lines))
         if op["op"] == "ping":
             lines.append(f"ping {op['src']} {op['dst']} {op['count']}")
@@ -558,7 +645,10 @@ class Recorder:
         return ev
 
 
-def build_impl(case: dict, rec: Recorder):
+APP_RULES = [("UDP", "DNS"), ("TCP", "DNS"), ("TCP", "POSTGRES_SERVER"), ("UDP", "POSTGRES_SERVER")]
+
+
+def build_impl(case: dict, rec: Recorder, app_acl: bool = False):
     from primaite.simulator.network.container import Network
     from primaite.simulator.network.hardware.nodes.host.computer import Computer
     from primaite.simulator.network.hardware.nodes.network.router import Router
@@ -622,6 +712,10 @@ def build_impl(case: dict, rec: Recorder):
                 cfg["default_route"] = {"next_hop_ip_address": nd["default"]}
             if nd.get("flag"):
                 cfg["acl"] = {1: {"action": "PERMIT", "protocol": "UDP", "src_port": "NTP", "dst_port": "NTP"}}
+            if app_acl:
+                cfg.setdefault("acl", {})
+                for k, (proto, port) in enumerate(APP_RULES):
+                    cfg["acl"][2 + k] = {"action": "PERMIT", "protocol": proto, "src_port": port, "dst_port": port}
             o = Router.from_config(config=cfg)
         o.power_on()
         net.add_node(o)
@@ -757,6 +851,60 @@ def run_impl(case: dict) -> Tuple[List[str], List[dict]]:
     return answers, records
 
 
+def run_apps(case: dict) -> List[dict]:
+    """R-app (implementation only; the property's oracles, no model): real application exchanges — DNS look-ups and database
+    connect + query — from every other host to the first host across the generated routers (plain routers, every one
+    permitting the applications' ports), cold caches.  Records have the shape `oracle` reads."""
+    from ipaddress import IPv4Address
+    rec = Recorder()
+    rec.install()
+    records: List[dict] = []
+    try:
+        net, objs, ifaces = build_impl(case, rec, app_acl=True)
+        owners: Dict[str, int] = {}
+        for n, lst in enumerate(ifaces):
+            for ifc in lst:
+                if hasattr(ifc, "ip_address"):
+                    owners.setdefault(str(ifc.ip_address), n)
+        hosts = [n for n, nd in enumerate(case["nodes"]) if nd["kind"] == "host"]
+        srv = hosts[0]
+        sip = IPv4Address(case["nodes"][srv]["ip"])
+        from primaite.simulator.system.applications.database_client import DatabaseClient
+        from primaite.simulator.system.services.database.database_service import DatabaseService
+        from primaite.simulator.system.services.dns.dns_server import DNSServer
+        objs[srv].software_manager.install(DNSServer)
+        objs[srv].software_manager.install(DatabaseService)
+        objs[srv].software_manager.software["dns-server"].dns_register("verif.example", sip)
+        rec.take()
+        for cl in hosts[1:4]:
+            for kind in ("dns", "db", "dns-again"):
+                res = "0"
+                try:
+                    if kind.startswith("dns"):
+                        dc = objs[cl].software_manager.software["dns-client"]
+                        dc.dns_server = sip
+                        if kind == "dns":
+                            dc.dns_cache.clear()
+                        res = "1" if dc.check_domain_exists("verif.example") else "0"
+                    else:
+                        objs[cl].software_manager.install(DatabaseClient)
+                        app = objs[cl].software_manager.software["database-client"]
+                        app.run()
+                        app.configure(server_ip_address=sip)
+                        res = "1" if (app.connect() and app.query("SELECT")) else "0"
+                except Exception as e:
+                    if isinstance(e, RecursionError) or "recursion" in str(e).lower():
+                        res = "OOF"
+                    else:
+                        raise
+                records.append({"op": {"op": "app:" + kind, "src": cl, "dst": str(sip)}, "res": res, "raw": rec.take(), "owners": owners})
+                if res == "OOF":
+                    return records
+    finally:
+        rec.remove()
+    return records
+
+
 def arp_sound_oracle(case: dict, answers: List[str]) -> Optional[dict]:
     """Conclusion of theorem C08_arp_sound_preserved evaluated on the IMPLEMENTATION's final ARP caches: every entry ip -> mac
     names an interface that carries ip, or a router interface.  Only meaningful when the model's `goodstate` check holds."""
@@ -826,6 +974,8 @@ def oracle(case: dict, records: List[dict]) -> Optional[dict]:
             servers_ip = {nd["ip"] for nd in case["nodes"] if nd["kind"] == "host" and nd.get("flag")}
             if op["dst"] in servers_ip:
                 return {"kind": "permitted-exchange-failed", "op": k, "what": f"service request {op['src']} -> {op['dst']} got no reply on a consistent, fully-up, all-permitting topology"}
+        elif op["op"].startswith("app:") and case.get("consistent") and r["res"] != "1":
+            return {"kind": "permitted-exchange-failed", "op": k, "what": f"application exchange {op['op']} {op['src']} -> {op['dst']} failed on a consistent, fully-up topology whose routers permit it"}
         elif op["op"] == "ping" and case.get("consistent") and case.get("ping_permit", True) and not down and not off and r["res"] != "1":
             hosts_ip = {nd["ip"]: n for n, nd in enumerate(case["nodes"]) if nd["kind"] == "host"}
             if op["dst"] in hosts_ip:
